@@ -337,3 +337,160 @@ def strip_type_tests(r):
         if 'type(' in txt and 'geodepy/angles.py::' in txt:
             return strip_type_tests(a.args[2])
     return r
+
+
+LIB_SCOPE = ['geodepy.constants', 'geodepy.transform', 'geodepy.survey', 'geodepy.statistics', 'geodepy.convert', 'geodepy.geodesy', 'geodepy.angles',
+             'geodepy.coord', 'geodepy.ntv2reader']
+
+
+def _names(e):
+    return [n for n in ast.walk(e) if isinstance(n, ast.Name) and isinstance(n.ctx, ast.Load)]
+
+
+def memo_verdict(repo, site):
+    """a store G[key] = value into a module-level dict: ('memo', text) when the key contains everything the value is computed from,
+    ('lossy', text) when some input of the value is missing from the key, ('unknown', text) otherwise"""
+    from ..resolve import Resolver
+    h = site.func
+    node = site.node
+    if not (isinstance(node, ast.Assign) and len(node.targets) == 1 and isinstance(node.targets[0], ast.Subscript) and isinstance(node.targets[0].value, ast.Name)):
+        return 'unknown', 'not a keyed store'
+    key_e, val_e = node.targets[0].slice, node.value
+    params = [p.name for p in h.params]
+    # single assignments of locals, for expanding key and value down to the parameters
+    assigns = {}
+    for st in ast.walk(h.node):
+        if isinstance(st, ast.Assign) and len(st.targets) == 1 and isinstance(st.targets[0], ast.Name):
+            assigns.setdefault(st.targets[0].id, []).append(st.value)
+
+    def expand(e, depth=0):
+        """expressions the value of e is built from, locals replaced by their (unique) definitions"""
+        out = [e]
+        if depth > 4:
+            return out
+        for n in _names(e):
+            if n.id not in params and len(assigns.get(n.id, [])) == 1:
+                out.extend(expand(assigns[n.id][0], depth + 1))
+        return out
+    key_parts = expand(key_e)
+    val_parts = expand(val_e)
+    bare_in_key = set()
+    attrs_in_key = {}
+    for part in key_parts:
+        for n in ast.walk(part):
+            if isinstance(n, ast.Attribute) and isinstance(n.value, ast.Name) and n.value.id in params:
+                attrs_in_key.setdefault(n.value.id, set()).add(n.attr)
+        # bare occurrences: a Name that is not the base of an attribute access
+        bases = set(id(n.value) for n in ast.walk(part) if isinstance(n, ast.Attribute))
+        for n in _names(part):
+            if n.id in params and id(n) not in bases:
+                bare_in_key.add(n.id)
+    rs = Resolver(repo)
+    used = {}       # param -> set of attributes read, or {'*'} when used whole and the reads are not known
+    for part in val_parts:
+        bases = set(id(n.value) for n in ast.walk(part) if isinstance(n, ast.Attribute))
+        for n in ast.walk(part):
+            if isinstance(n, ast.Attribute) and isinstance(n.value, ast.Name) and n.value.id in params:
+                used.setdefault(n.value.id, set()).add(n.attr)
+        for n in _names(part):
+            if n.id in params and id(n) not in bases:
+                used.setdefault(n.id, set())
+                # whole-object use: which attributes does the receiving code read?
+                reads = whole_object_reads(repo, rs, h, part, n)
+                used[n.id] |= reads
+    missing = []
+    unknown = []
+    for p_, attrs in sorted(used.items()):
+        if p_ in bare_in_key:
+            continue
+        if not attrs:
+            # a plain value (number, string, date) used in the value but absent from the key
+            if p_ not in attrs_in_key:
+                missing.append(p_)
+            continue
+        if '*' in attrs:
+            if p_ not in attrs_in_key:
+                missing.append(p_)
+            else:
+                unknown.append(p_)
+            continue
+        lack = attrs - attrs_in_key.get(p_, set())
+        if lack:
+            missing.append('%s.%s' % (p_, '/'.join(sorted(lack)[:4])))
+    if missing:
+        return 'lossy', 'the stored value is computed from %s, which the key %s does not contain' % (', '.join(missing), ast.unparse(key_e)[:80])
+    if unknown:
+        return 'unknown', 'cannot tell which attributes of %s the stored value depends on' % ', '.join(unknown)
+    return 'memo', 'the key %s contains every input of the stored value' % ast.unparse(key_e)[:80]
+
+
+def whole_object_reads(repo, rs, h, part, name_node):
+    """attributes of the object `name_node` that the code receiving it reads: for an argument of a resolved call the attribute loads on the
+    corresponding parameter (one level), for the left operand of + - * / the loads on self in the operator method; {'*'} when not resolvable;
+    empty set for non-objects cannot be told apart here, so a resolved callee without attribute loads gives the empty set"""
+    from ..model import Func
+    for c in ast.walk(part):
+        if isinstance(c, ast.Call):
+            for i_, a in enumerate(c.args):
+                if a is name_node:
+                    t = rs.callee(h, c)
+                    if isinstance(t, Func):
+                        ps = [p.name for p in t.params]
+                        if i_ < len(ps):
+                            return set(n.attr for n in ast.walk(t.node) if isinstance(n, ast.Attribute) and isinstance(n.value, ast.Name) and n.value.id == ps[i_]) or set()
+                    return {'*'}
+            for kw in c.keywords:
+                if kw.value is name_node:
+                    t = rs.callee(h, c)
+                    if isinstance(t, Func):
+                        return set(n.attr for n in ast.walk(t.node) if isinstance(n, ast.Attribute) and isinstance(n.value, ast.Name) and n.value.id == kw.arg) or set()
+                    return {'*'}
+        if isinstance(c, ast.BinOp) and c.left is name_node:
+            mname = {ast.Add: '__add__', ast.Sub: '__sub__', ast.Mult: '__mul__', ast.Div: '__truediv__'}.get(type(c.op))
+            cls = rs.expr_class(h, c.left) if hasattr(rs, 'expr_class') else None
+            if cls is not None and mname in cls.methods:
+                m = cls.methods[mname]
+                return set(n.attr for n in ast.walk(m.node) if isinstance(n, ast.Attribute) and isinstance(n.value, ast.Name) and n.value.id == 'self') or set()
+            # class not known: every Transformation-like object of the repository defining this operator
+            need = set(n.attr for n in ast.walk(h.node) if isinstance(n, ast.Attribute) and isinstance(n.value, ast.Name) and n.value.id == name_node.id)
+
+            def fields_of(k):
+                init = k.methods.get('__init__')
+                return set(n.attr for n in ast.walk(init.node) if isinstance(n, ast.Attribute) and isinstance(n.value, ast.Name) and n.value.id == 'self') if init else set()
+            cands = [k.methods[mname] for mod in repo.modules.values() for k in mod.classes.values() if mname in k.methods and need <= (fields_of(k) | set(k.methods))]
+            if len(cands) == 1:
+                m = cands[0]
+                return set(n.attr for n in ast.walk(m.node) if isinstance(n, ast.Attribute) and isinstance(n.value, ast.Name) and n.value.id == 'self') or set()
+            return {'*'}
+        if isinstance(c, ast.UnaryOp) and c.operand is name_node:
+            return {'*'}
+    return set()
+
+
+def state_rule(repo, rep, funcs, scope=None):
+    """a conversion keeps no state between calls: neither it nor anything it calls writes a module-level object - except a memo whose key
+    contains every input of the stored value (then the result still depends on the arguments only).
+    funcs: [(module, qualname)]"""
+    from ..purity import Purity
+    pur = Purity(repo, scope or LIB_SCOPE)
+    for mod, q in funcs:
+        g = repo.func(mod, q)
+        key = 'R-PURE::%s::%s::state' % (g.module.relpath, q)
+        sites = list(pur.mut_global[id(g)])
+        if not sites:
+            rep.holds('R-PURE', key, where(g, g.node), '%s and its callees keep no state between calls' % q)
+            continue
+        for site, path in sites[:3]:
+            verdict, txt = memo_verdict(repo, site)
+            via = (' via ' + ' -> '.join(path)) if path else ''
+            k2 = key + '::' + site.target
+            if verdict == 'memo':
+                rep.holds('R-PURE', k2, site.where, '%s%s keeps a memo (%s): %s' % (q, via, site.text[:60], txt))
+            elif verdict == 'lossy':
+                rep.violated('R-PURE', k2, site.where, '%s%s keeps module-level state (%s) under a lossy key: %s - a later call with another value of it gets the earlier result' % (
+                    q, via, site.text[:80], txt), expected='a key holding every input of the stored value, or no state', actual=site.text[:200])
+            elif verdict == 'unknown' and txt != 'not a keyed store':
+                rep.undecided('R-PURE', k2, site.where, '%s%s keeps module-level state (%s): %s' % (q, via, site.text[:80], txt))
+            else:
+                rep.violated('R-PURE', k2, site.where, '%s%s writes module-level state (%s): its result then depends on earlier calls, not only on its arguments' % (
+                    q, via, site.text[:100]), expected='no state kept between calls', actual=site.text[:200])
